@@ -30,6 +30,8 @@ def gen_cases(tier, seed, configs):
             sc = (r.choice([0, 1, 2, 2, 3]), r.randrange(1, 10 ** 6), r.choice([1, 2, 4, 16]))
             scheds.append(sc)
             body += ["mark s%d" % si, "buildtsm bs=%d mode=%d" % (bs, mode), "exec omptsm flags=63 upper=%d sched=%d seed=%d workers=%d" % ((upper,) + sc) + (" cworkers=1" if (sc[2] > 2 and si == 1) else ""), "dump tsmvalues"]
+        # no block size given: the library's estimate from both particle sets (few occupied leaves give the smallest value)
+        body += ["mark auto", "buildtsm auto=1 threads=HW mode=%d" % mode, "exec tsm flags=63 upper=%d" % upper, "dump tsmvalues"]
         # the StarPU target/source executor under the mock StarPU runtime
         sc = (r.choice([0, 1, 2, 2, 3]), r.randrange(1, 10 ** 6), r.choice([1, 2, 4, 16]))
         scheds.append(sc)
@@ -158,6 +160,18 @@ def evaluate(res):
         elif core.elems_of_calls(seg) != ce:
             orc.append(("C09:omp-elems", "task-based target/source executor (%s, schedule %r) performs different elementary interactions" % ("OpenMP" if si < 2 else ("StarPU/mock" if si == 2 else "Specx/mock"), sc)))
         orc += [("C09:X", x) for x in core.section(seg, "X ")]
+    aseg = cs.get("auto")
+    if aseg is not None:
+        bl = [ln for ln in aseg if ln.startswith("B ")]
+        if bl and min(int(x) for x in bl[0].split()[1:]) < 1:
+            orc.append(("C09:auto-bs", "default block size of the target/source tree is %s (< 1)" % bl[0][2:]))
+        if sorted(core.section(aseg, "V ")) != cv:
+            orc.append(("C09:auto-values", "with the default block size (%s) the target/source run leaves values different from the run with block size %d" % (bl[0][2:] if bl else "?", c["meta"].get("bs", 0))))
+        elif core.elems_of_calls(aseg) != ce:
+            orc.append(("C09:auto-elems", "with the default block size the target/source run performs different elementary interactions"))
+        if bl != [ln for ln in ls.get("auto", []) if ln.startswith("B ")]:
+            corr.append(("auto-bs", "the library chose block sizes %r, the model of TbfBlockSizeFinder gives %r" % (bl, [ln for ln in ls.get("auto", []) if ln.startswith("B ")])))
+        orc += [("C09:X", x) for x in core.section(aseg, "X ")]
     orc += [("C09:X", x) for x in core.section(seq, "X ") + core.section(cs.get("", []) if "" in cs else [], "X ")]
     head = [ln for ln in res.cpp if ln[:2] in ("sS", "tS") or ln.startswith("F ")]
     orc += structure_checks(c, head)
